@@ -3,7 +3,8 @@
    is complete it is printed with the PURE answer of every call (KeyCache.tla) - the answer the real package must give at
    that position whatever came before - and with the prediction of the implementation-shaped model: which earlier call
    made the object handed back (the real code returns the same pointer on a hit), for the model capacity Cap (the driver
-   pads every call with fresh keys so that one model slot is 512 slots of the real cache of 1024) and for a cache that
+   follows every call that inserts a NEW entry in the model (ins) with 511 fresh keys, so that one model slot is 512 slots of
+   the real cache of 1024 and the real cache evicts exactly when the model does) and for a cache that
    never evicts (no padding).  Histories mix curves, encodings, parities, repeats and more distinct keys than Cap. *)
 EXTENDS KeyCacheMC, TLC, Json
 
@@ -34,7 +35,7 @@ Answers(h, i, ch, chInf) ==
              r == Run(k.b, k.c, ch, i, Cap)
              rI == Run(k.b, k.c, chInf, i, 1000000)
              e == Pure(k.b, k.c)
-         IN << [b |-> k.b, c |-> k.c, ok |-> e.ok, pt |-> e.pt, obj |-> r.obj, objinf |-> rI.obj,
+         IN << [b |-> k.b, c |-> k.c, ok |-> e.ok, pt |-> e.pt, obj |-> r.obj, objinf |-> rI.obj, ins |-> r.ins,
                 impl |-> r.res = e /\ rI.res = e] >> \o Answers(h, i + 1, r.cache, rI.cache)
 
 Emit == ~fin \/ PrintT(<<"@@HIST@@", ToJson(Answers(hist, 1, <<>>, <<>>))>>)
